@@ -25,7 +25,7 @@ claims.update({
    'Not decided: fairness, timing, Cond wake-up races. Trusted: Go channel semantics.',
    'DESIGN.md 3.C05'),
  'C07': ('other', 'lock-guard + event-ordering rules on all paths incl. panic exits; who-may-touch',
-   'Call maps only under their mutex, no user function under the group lock, no self-deadlock; completion deletes the key before wg.Done() on every exit incl. panic; creator registers before unlocking, waiters unlock before waiting; fn exactly once per makeCall with results stored only in the call object; Do/DoEx return that object\'s val/err after completion and report fresh exactly for the creator; ResourceManager creates only inside the single flight after a miss and stores only on success.',
+   'Call maps only under their mutex, no user function under the group lock, no self-deadlock; completion deletes the key and releases the waiters exactly once on every exit incl. panic; creator registers before unlocking, waiters unlock before waiting; fn exactly once per makeCall with results stored only in the call object; Do/DoEx return that object\'s val/err after completion and report fresh exactly for the creator; ResourceManager creates only inside the single flight after a miss and stores only on success.',
    'Not decided: the interval-overlap statement over real interleavings, liveness.',
    'DESIGN.md 3.C07'),
 })
